@@ -7,8 +7,8 @@ export CARGO_NET_OFFLINE=true
 [ -f harness/Cargo.lock ] || cp /repo/Cargo.lock harness/Cargo.lock
 LEAN_TARGETS=""
 CARGO_BINS=""
-for id in $(cat claimed.txt); do
-  n=$(echo "$id" | sed 's/^C//')
+for id in $(cat claimed.txt) $(grep -v "^#" subchecks.txt 2>/dev/null | cut -d" " -f2-); do
+  n=$(echo "$id" | sed 's/^C//' | tr 'A-Z' 'a-z')
   LEAN_TARGETS="$LEAN_TARGETS BarterModel.Props.$id drv_c$n"
   CARGO_BINS="$CARGO_BINS --bin c$n"
 done
